@@ -13,6 +13,7 @@ import (
 	"os"
 	"runtime/pprof"
 	"fmt"
+	"math"
 	"sort"
 	"strconv"
 	"strings"
@@ -592,12 +593,19 @@ func (w *world) exec(op string) (string, string) {
 		w.reset()
 		return simple("ok")
 	case len(f) == 1 && f[0] == "restart":
+		// Initialize on the live storage, optionally with its (failAt+1)-th storage write failing
+		w.fkv.armed, w.fkv.failAt, w.fkv.n, w.fkv.failed, w.fkv.wrote = failAt >= 0, failAt, 0, false, nil
 		m, err := newManager(w.storage)
+		w.fkv.armed = false
+		opOut := core0
+		if failAt >= 0 {
+			opOut += fmt.Sprintf(" fail=%d", failAt)
+		}
 		if err != nil {
-			return simple("load-failed")
+			return opOut, "load-failed " + w.obs()
 		}
 		w.m = m
-		return simple("ok")
+		return opOut, "ok " + w.obs()
 	case len(f) == 4 && f[0] == "rawput":
 		r, ok := parseRule(f[3])
 		if !ok {
@@ -663,6 +671,10 @@ func (g *gen) rule(group int) string {
 	}
 	id := r.Range(1, 6)
 	idx := []int{0, 0, 0, 1, 2, -1, 5}[r.Intn(7)]
+	if r.Bool(1, 8) {
+		// extreme indexes: comparisons must not be done by subtraction
+		idx = []int{math.MaxInt64, math.MinInt64, math.MaxInt64 - 1, math.MinInt64 + 1, -1, 1}[r.Intn(6)]
+	}
 	ov := r.Bool(1, 5)
 	start := []int{0, 0, 0, 1, 2, 3, 4, 5, 6, 7}[r.Intn(10)]
 	end := 0
@@ -811,7 +823,11 @@ func (g *gen) update() string {
 		return "batch " + strings.Join(l, ",")
 	case 4:
 		a, _ := g.existing()
-		return fmt.Sprintf("setgroup %d %d %s", a, []int{0, 1, 2, -1, 3}[r.Intn(5)], b01(r.Bool(1, 3)))
+		gi := []int{0, 1, 2, -1, 3}[r.Intn(5)]
+		if r.Bool(1, 6) {
+			gi = []int{math.MaxInt64, math.MinInt64, math.MaxInt64 - 1, -1}[r.Intn(4)]
+		}
+		return fmt.Sprintf("setgroup %d %d %s", a, gi, b01(r.Bool(1, 3)))
 	case 5:
 		a, _ := g.existing()
 		return fmt.Sprintf("delgroup %d", a)
@@ -861,7 +877,20 @@ func (g *gen) sequence(maxOps int, corrupt bool) {
 				g.w.run(g.t, fmt.Sprintf("rawput %d %d %s", r.Range(1, 4), r.Range(1, 6), g.rule(-1)))
 				g.bad = old
 			}
-			if r.Bool(2, 3) {
+			if r.Bool(1, 3) {
+				// a served rule whose only stored copy sits under a foreign key
+				rs := g.w.m.GetAllRules()
+				x := rs[r.Intn(len(rs))]
+				xg, xi := rankOf(groupNames, x.GroupID), rankOf(idNames, x.ID)
+				g.w.run(g.t, fmt.Sprintf("rawput %d %d %s", r.Range(1, 4), r.Range(1, 6), ruleToken(x)))
+				g.w.run(g.t, fmt.Sprintf("rawdel %d %d", xg, xi))
+				g.hist["foreign-key-only"]++
+			}
+			if r.Bool(1, 2) {
+				// start-up with a storage failure at one of the writes of the key repair, then a healthy start-up
+				g.hist["restart-with-failure:"+g.w.run(g.t, fmt.Sprintf("restart fail=%d", r.Pick(4, 4, 2, 1)))]++
+				g.w.run(g.t, "restart")
+			} else if r.Bool(2, 3) {
 				g.w.run(g.t, "restart")
 			}
 			continue
